@@ -17,7 +17,7 @@ import c06
 import gen
 import groups
 import runloop
-from common import CONFIG_INI, Quiet, known_open, pmap
+from common import CONFIG_INI, Quiet, coq_bad, known_open, listlit, pmap, ulit
 
 SIG_D14 = "empty-stage-no-data-file"
 SIG_D14B = "reference-to-empty-result-no-data-file"
@@ -94,7 +94,7 @@ def ref_job(job):
                     paths.collect_paths(pathsname="h", filename=f"f{k}")
                 r = paths.results_manager.get_named_results("g")[0]
                 expect = {"vars": json.loads(json.dumps(r.csvpath.variables, default=str)), "lines": [list(l) for l in r.lines.next()],
-                          "data_file": r.data_file_path, "run_dir": r.run_dir}
+                          "data_file": r.data_file_path, "run_dir": r.run_dir, "headers": [f"{h}" for h in (r.csvpath.headers or [])]}
                 if k == 0:
                     first = dict(expect)
             c10.set_clock((2026, 5, 6, 7, 9, 0))
@@ -270,6 +270,17 @@ def run(ctx):
         want = {"t": e["vars"].get("total"), "lastv": e["vars"].get("last"), "tx": (e["vars"].get("b") or {}).get("x"), "o": "other"}
         hb = [(l[2] if len(l) > 2 else None) for l in e["lines"]]
         want_hs = [v.strip() for v in hb if v is not None]
+        # a reference to a variable the latest run never set (it scanned no data line), or a header reference to a run that collected
+        # no line, is reported as an error by the library ("Results exist but the variable is unknown" / "no data was captured") and
+        # the assignment does not happen: the property speaks of the value the run LEFT, so those references are not judged
+        if "total" not in e["vars"]:
+            want.pop("t")
+        if "last" not in e["vars"]:
+            want.pop("lastv")
+        if "b" not in e["vars"]:
+            want.pop("tx")
+        if not e["lines"]:
+            want_hs = g.get("hs")
         bad = {k: (g.get(k), v) for k, v in want.items() if g.get(k) != v}
         if bad or g.get("hs") != want_hs:
             fails.append({"kind": "a variable / header reference does not evaluate to what the referenced group's most recent run left", "runs_of_g": nruns, "rows": rl,
@@ -280,6 +291,21 @@ def run(ctx):
         elif o["replayed"] is not None and o["last_file"] is not None and (o["replayed"] != e["lines"] or os.path.normpath(o["last_file"]) != os.path.normpath(e["data_file"])):
             fails.append({"kind": "a results reference used as a file name did not replay the referenced member's data.csv", "rows": rl, "replayed": o["replayed"], "data_csv_lines": e["lines"],
                           "last_resolves_to": o["last_file"], "expected": e["data_file"]})
+    # the same scenarios against the model of references (Mgr/Chain.v header_ref / replay_input / replay_chain), computed by Coq
+    rows_lit = lambda rows: listlit(rows, lambda r: listlit(r, ulit))
+    rlits, rsrc = [], []
+    for (jid, nruns, rl), o in zip(rjobs, rres):
+        if o["exc"]:
+            continue
+        e = o["expect"]
+        hgot = o["got"].get("hs")
+        rc = o.get("ref_chain") or {}
+        rlits.append(f"mkC20R {listlit(e['headers'], ulit)} {rows_lit(e['lines'])} {ulit('b')} "
+                     + ("None " if not isinstance(hgot, list) else f"(Some {listlit(hgot, ulit)}) ")
+                     + ("None " if o.get("replayed") is None else f"(Some {rows_lit(o['replayed'])}) ")
+                     + ("None" if "c1" not in rc else f"(Some ({rows_lit(rc['c1'])}, {rows_lit(rc['c2'])}))"))
+        rsrc.append((rl, o))
+    rbad = sorted(coq_bad(ctx, "c20r", "Csv.CsvModel Data.DataModel Mgr.Archive Mgr.Chain Harness.C20Cmp", "c20ref", rlits, ["c20_ref_agree"], chunk=60)["c20_ref_agree"]) if rlits else []
     selfs = [(rl, o["self_replay"]) for (jid, nruns, rl), o in zip(rjobs, rres) if not o["exc"] and o.get("self_replay")]
     self_exc = [(rl, x) for rl, x in selfs if x.get("exc") and x["want"]]
     self_bad = [(rl, x) for rl, x in selfs if not x.get("exc") and x["got"] != x["want"]]
@@ -316,6 +342,12 @@ def run(ctx):
             ctx.known(f"{SIG_D14}: a chain stage that collects no line leaves no data.csv; its source-mode: preceding successor aborts the run with FileNotFoundError ({len(d14)} chains this run; witness C20_empty_stage_refuted)")
         else:
             ctx.violation("empty-stage", {"what": "a stage that collects no line leaves no data.csv; the next member (source-mode: preceding) raises FileNotFoundError instead of reading nothing", "case": d14[0], "chains": len(d14)})
+    if rbad and not fails:
+        rl, o = rsrc[rbad[0]]
+        ctx.violation("correspondence", {"what": "correspondence Mgr/Chain.v (header_ref / replay_input / replay_chain) vs the reference scenarios no longer checks (Harness/C20Cmp.c20_ref_agree); "
+                                                 "theorems C20_replay*, C20_header_ref are about the model only",
+                                         "disagreeing_case": {"rows": rl, "header_reference": o["got"].get("hs"), "replayed": o.get("replayed"), "ref_chain": o.get("ref_chain"),
+                                                              "referenced": o["expect"]["lines"], "headers": o["expect"]["headers"]}}, no_input=True)
     if fails:
         ctx.violation("flow", {"what": fails[0]["kind"], "case": fails[0], "more": fails[1:3], "failures": len(fails)})
     ctx.coverage.update({
@@ -325,7 +357,7 @@ def run(ctx):
                 "different files, then a csvpath reading $g.variables.total/.last/.b.x (tracking), $g.headers.b and $h.variables.total, a results reference by run-dir name, by ':last' and by ':first', references to members whose identity contains a dot, a group replaying its own last run. "
                 "a source-mode: preceding chain run over a ':last' results reference; Non-trivial = chains where a preceding member collected some but not all of its predecessor's lines + reference scenarios completed.",
         "samples": [{"group": jobs[0]["groups"]["g"], "rows": meta[0][2]}],
-        "chains": len(jobs), "stage_comparisons": judged, "reference_scenarios": len(rjobs), "empty_stage_chains": len(d14), "failures": len(fails),
+        "chains": len(jobs), "stage_comparisons": judged, "reference_scenarios": len(rjobs), "reference_scenarios_against_model": len(rlits) - len(rbad), "empty_stage_chains": len(d14), "failures": len(fails),
         "traces_validated_against_impl": judged,
         "correspondence": f"chain model (input of member k = predecessor's lines | original file) == implementation on {judged - sum(1 for f in fails if 'member' in f)}/{judged} member comparisons",
     })
